@@ -1158,3 +1158,96 @@ func dirVsPackageNameFamily() []*Program {
 	}
 	return out
 }
+
+// passThroughArgsFamily (C02): injectors that construct nothing and return one of their own
+// arguments — directly, or through a binding — while ANOTHER argument, placed before or after,
+// has a type assignable to the result type (a second implementation of the bound interface, a
+// named slice type next to its underlying type). The designated argument must come back.
+func passThroughArgsFamily() []*Program {
+	var out []*Program
+	n := 0
+	add := func(b *PB, cell string) {
+		b.P.Note = cell
+		b.P.Feat = map[string]string{"cell": cell}
+		out = append(out, b.P)
+	}
+	for _, designatedFirst := range []bool{true, false} {
+		for _, extra := range []int{0, 1} {
+			// interface bound to one of two implementing arguments
+			n++
+			b := NewPB(fmt.Sprintf("pa%03d", n), "app")
+			en, fr := b.Carrier(0, "English"), b.Carrier(0, "French")
+			g := b.Iface(0, "Greeter", PtrTo(fr), true)
+			en.Decl.Methods = append(en.Decl.Methods, Method{Name: g.Decl.Under.Meths[0], PtrRecv: true})
+			params := []Param{{Name: "fr", Ty: PtrTo(fr)}, {Name: "en", Ty: PtrTo(en)}}
+			if !designatedFirst {
+				params[0], params[1] = params[1], params[0]
+			}
+			if extra == 1 {
+				params = append(params, Param{Name: "n", Ty: b.Carrier(0, "Unrelated")})
+			}
+			b.Inj("Init", g, false, false, params, ItemRef(b.Bind(g, PtrTo(fr)).ID))
+			add(b, fmt.Sprintf("pass-through-args/binding/designated-first=%v/extra=%d", designatedFirst, extra))
+			// the unnamed slice type is the result; a named slice type argument is assignable to it
+			n++
+			b = NewPB(fmt.Sprintf("pa%03d", n), "app")
+			el := b.Carrier(0, "Elem")
+			named := b.NamedOf(0, "Hosts", SliceOf(el), "wrap")
+			params = []Param{{Name: "plain", Ty: SliceOf(el)}, {Name: "named", Ty: named}}
+			if !designatedFirst {
+				params[0], params[1] = params[1], params[0]
+			}
+			b.Inj("Init", SliceOf(el), false, false, params)
+			add(b, fmt.Sprintf("pass-through-args/unnamed-result/designated-first=%v", designatedFirst))
+			// and the reverse: the named type is the result
+			n++
+			b = NewPB(fmt.Sprintf("pa%03d", n), "app")
+			el = b.Carrier(0, "Elem")
+			named = b.NamedOf(0, "Hosts", SliceOf(el), "wrap")
+			params = []Param{{Name: "named", Ty: named}, {Name: "plain", Ty: SliceOf(el)}}
+			if !designatedFirst {
+				params[0], params[1] = params[1], params[0]
+			}
+			b.Inj("Init", named, false, false, params)
+			add(b, fmt.Sprintf("pass-through-args/named-result/designated-first=%v", designatedFirst))
+		}
+	}
+	return out
+}
+
+// twinPackagesFamily (C10, C02): two packages with the SAME package clause (different
+// directories) declaring the same identifiers (type T, provider New, set variable Set), used
+// together by one injector and separately by two injectors in either order.
+func twinPackagesFamily() []*Program {
+	var out []*Program
+	for v := 0; v < 4; v++ {
+		b := NewPB(fmt.Sprintf("tp%02d", v), "app", "a_store", "b_store")
+		b.P.Pkgs[1].Name, b.P.Pkgs[2].Name = "store", "store"
+		ta, tb := b.Carrier(1, "T"), b.Carrier(2, "T")
+		da, db := b.Carrier(1, "Dep"), b.Carrier(2, "Dep")
+		sa := b.Set(1, "Set", ItemRef(b.Func(1, "New", ta, false, false, da).ID), ItemRef(b.Func(1, "NewDep", da, false, false).ID))
+		sb := b.Set(2, "Set", ItemRef(b.Func(2, "New", tb, false, false, db).ID), ItemRef(b.Func(2, "NewDep", db, false, false).ID))
+		switch v {
+		case 0:
+			app := b.Carrier(0, "App")
+			b.Inj("Init", app, false, false, nil, SetRef(sa.ID), SetRef(sb.ID), ItemRef(b.Func(0, "NewApp", app, false, false, ta, tb).ID))
+		case 1:
+			b.Inj("InitA", ta, false, false, nil, SetRef(sa.ID))
+			b.Inj("InitB", tb, false, false, nil, SetRef(sb.ID))
+		case 2:
+			b.Inj("InitB", tb, false, false, nil, SetRef(sb.ID))
+			b.Inj("InitA", ta, false, false, nil, SetRef(sa.ID))
+		case 3:
+			// the sets re-exported by set variables of the injector's package with equal names too
+			wa := b.Set(0, "WrapA", SetRef(sa.ID))
+			wb := b.Set(0, "WrapB", SetRef(sb.ID))
+			app := b.Carrier(0, "App")
+			b.Inj("Init", app, false, false, nil, SetRef(wb.ID), SetRef(wa.ID), ItemRef(b.Func(0, "NewApp", app, false, false, tb, ta).ID))
+		}
+		cell := fmt.Sprintf("twin-packages/variant=%d", v)
+		b.P.Note = cell
+		b.P.Feat = map[string]string{"cell": cell}
+		out = append(out, b.P)
+	}
+	return out
+}
